@@ -28,7 +28,9 @@ def scalar(rng):
         return node("f", rng.choice(FLTS))
     if k == 5:
         return node("r", rng.choice(RAWS))
-    return node("s", rng.choice(STRS))
+    s = rng.choice(STRS)
+    # "l": kept by address (string literal / const char* / JsonString(Linked)); "s": given through a copying kind
+    return node("l" if "%00" not in s and rng.random() < 0.4 else "s", s)
 
 
 def rand_json(rng, depth=0):
